@@ -1018,7 +1018,7 @@ Proof.
   - apply IH; assumption.
 Qed.
 
-Lemma not_registered_in cc k :
+Lemma not_registered_in (cc : fields) k :
   existsb (fun kv => is_registered (fst kv)) cc = false -> is_registered k = true -> ~ In k (map fst cc).
 Proof.
   intros H R Hin. apply in_map_iff in Hin. destruct Hin as [[k0 v0] [E Hin]]. simpl in E. subst k0.
@@ -1052,22 +1052,31 @@ Proof.
   destruct (is_some (ro_exp o) && ro_noexp o) eqn:E2; [discriminate|].
   destruct (is_some (ro_aud o) && is_some (ro_auds o)) eqn:E3; [discriminate|].
   destruct (forallb (fun kv => json_utf8 (snd kv)) cc); [|discriminate].
-  inversion Ec as [Ep]. clear Ec.
+  inversion Ec as [Ep]. clear Ec. simpl in Hp. subst p.
   match goal with |- context [fold_left ?f cc ?q] => change (fold_left f cc q) with (set_all cc q) end.
+  match type of Hp with context [fold_left ?f cc ?q] => change (fold_left f cc q) with (set_all cc q) in Hp end.
   assert (R : forall k, is_registered k = true -> ~ In k (map (@fst bytes json) cc)) by (intros; eapply not_registered_in; eauto).
+  assert (L : forall k, is_registered k = true ->
+              forall q, lookup k (set_all cc q) = lookup k q).
+  { intros k Hk q. apply lookup_set_all_other. apply R. assumption. }
   split; [assumption|].
-  repeat (split; [rewrite lookup_set_all_other by (apply R; reflexivity); rewrite !lookup_set_opt; simpl;
-                   try (destruct (ro_iss o), (ro_sub o), (ro_jti o); reflexivity);
-                   try (destruct (ro_iat o), (ro_exp o), (ro_nbf o); reflexivity)|]).
+  split; [rewrite L by reflexivity; rewrite !lookup_set_opt; simpl; destruct (ro_iss o); reflexivity|].
+  split; [rewrite L by reflexivity; rewrite !lookup_set_opt; simpl; destruct (ro_sub o); reflexivity|].
+  split; [rewrite L by reflexivity; rewrite !lookup_set_opt; simpl; destruct (ro_jti o); reflexivity|].
+  split; [rewrite L by reflexivity; rewrite !lookup_set_opt; simpl; destruct (ro_iat o); reflexivity|].
+  split; [rewrite L by reflexivity; rewrite !lookup_set_opt; simpl; destruct (ro_exp o); reflexivity|].
+  split; [rewrite L by reflexivity; rewrite !lookup_set_opt; simpl; destruct (ro_nbf o); reflexivity|].
   split.
-  { rewrite lookup_set_all_other by (apply R; reflexivity). rewrite !lookup_set_opt. simpl.
+  { rewrite L by reflexivity. rewrite !lookup_set_opt. simpl.
     destruct (ro_auds o), (ro_aud o); simpl in *; try reflexivity; discriminate. }
   split; [intros k v N Hin; apply lookup_set_all_in; assumption|].
   split.
-  { intros k Hk Hn. rewrite lookup_set_all_other by assumption. rewrite !lookup_set_opt.
+  { intros k Hk Hn. rewrite lookup_set_all_other by assumption.
     unfold is_registered, is_str_claim, is_time_claim in Hk.
-    repeat (apply orb_false_iff in Hk; destruct Hk as [Hk ?]).
-    repeat match goal with H : beq k _ = false |- _ => rewrite H; clear H end. reflexivity. }
-  split; [|rewrite <- Ep in Hp; exact Hp].
+    repeat match goal with H : (_ || _) = false |- _ => apply orb_false_iff in H; destruct H end.
+    repeat (rewrite lookup_set_opt;
+            match goal with H : beq k ?x = false |- context [beq k ?x] => rewrite H end).
+    reflexivity. }
+  split; [|exact Hp].
   destruct (ro_exp o), (ro_noexp o); simpl in *; congruence.
 Qed.
